@@ -23,7 +23,8 @@ impl Prop for C07 {
         }
         let k = Knobs {
             configs: (1, 2),
-            modes: (1, 3),
+            modes: (1, 4),
+            max_transitions: 4,
             patterns: (1, 4),
             lookahead_pct: gen::draw_lookahead_pct(rng),
             disjoint_types: false,
